@@ -47,7 +47,7 @@ def arities(tier, extra=0):
 
 
 def gen_cases(tier):
-    schemes = ("str", "gap") if tier == "quick" else ("str", "gap", "tuple", "mixed")
+    schemes = ("str", "gap", "tuple") if tier == "quick" else ("str", "gap", "tuple", "mixed")
 
     def it():
         for g, eq, n in arities(tier):
@@ -176,7 +176,7 @@ def check(case, st):
 
 def run(ctx):
     ctx.bounds = {"variables": NV, "max_total_arity": "3 over the full alphabet + 4 over the first 6 operands" if ctx.quick else "4 over the full alphabet + 5 over the first 6 operands", "operand_alphabet": OPERANDS, "lams": LAMS,
-                  "schemes": ("str", "gap") if ctx.quick else ("str", "gap", "tuple", "mixed"), "methods": 16}
+                  "schemes": ("str", "gap", "tuple") if ctx.quick else ("str", "gap", "tuple", "mixed"), "methods": 16}
     ctx.rule = "case = (method, operand tuple, label scheme), each with both lam values; non-trivial = at least one operand is an expression, not a label"
     explore_cases(ctx, gen_cases(ctx.tier), check, label="C06")
 
